@@ -47,7 +47,7 @@ from ..trees import (
     slot_roles,
     variables_of,
 )
-from ..zeval import Undefined, ceval, close, mentions_variable, uses_uf, var, zeval_top
+from ..zeval import Undefined, ceval, close, mentions_variable, powr_axioms, uses_uf, var, zeval_top
 
 ENVS = [
     {"x": Fraction(2), "y": Fraction(3), "z": Fraction(5), "w": Fraction(7)},
@@ -140,15 +140,18 @@ def replay_value(sk: Any, payloads: Dict[int, Any], idx: int, rule_label: str, e
             what = f"{rule_label} turned the equation '{text_b}' into the non-equation '{text_a}'"
             keys["fault"] = "not-an-equation"
             return True, Violation(prop, site, keys, what, dict(base, observed="result is not an equation")), what
-        # a newly introduced division by a literal zero
-        for n in preorder(new_root):
-            if kind(n) == "div" and kind(n.right) == "const" and n.right.value == 0:
-                olds = [shape(o) for o in preorder(build(sk, ConcreteProvider(payloads))) if kind(o) == "div"
-                        and kind(o.right) == "const" and o.right.value == 0]
-                if not olds:
-                    what = f"{rule_label} on '{text_b}' divides by zero: '{text_a}'"
-                    keys["fault"] = "divide-by-zero"
-                    return True, Violation(prop, site, keys, what, dict(base, observed="division by literal 0 introduced")), what
+        # the original is defined at this assignment, the result divides by a variable-free zero
+        if lb is not None and rb is not None:
+            for n in preorder(new_root):
+                if kind(n) == "div" and not variables_of(n.right):
+                    try:
+                        d = ceval(n.right, env)
+                    except Unsupported:
+                        continue
+                    if d is not None and d == 0:
+                        what = f"{rule_label} on '{text_b}' divides by zero: '{text_a}'"
+                        keys["fault"] = "divide-by-zero"
+                        return True, Violation(prop, site, keys, what, dict(base, observed="division by zero introduced")), what
         try:
             la, ra = ceval(new_root.left, env), ceval(new_root.right, env)
         except Unsupported as e:
@@ -245,18 +248,18 @@ def make_harness(sk: Any, idx: int, rule_label: str, mode: str, prop: str):
             if after[0] != "eq":
                 queries.append(("shape", []))
             else:
-                dom = before[3] + after[3]
+                dom = before[3] + after[3] + powr_axioms(before[1], before[2], after[1], after[2])
                 queries.append(("solset", dom + [z3.Xor(before[1] == before[2], after[1] == after[2])]))
+                # "never divides by zero": a divisor of the result that does not depend on the variables
+                # must not be zero for payloads at which the original equation is defined
                 old = {t.get_id() for t in divs_before}
                 for t in div_divisors(new_root, ctx):
-                    if t.get_id() not in old and not mentions_variable(t) and frac_of(t) is None:
-                        queries.append(("divzero", [t == 0]))
-                    elif t.get_id() not in old and frac_of(t) == 0:
-                        queries.append(("divzero", []))
+                    if t.get_id() not in old and not mentions_variable(t):
+                        queries.append(("divzero", before[3] + [t == 0]))
         else:
             if after[0] == "eq":
                 return {"k": "undef"}
-            dom = before[3] + after[3]
+            dom = before[3] + after[3] + powr_axioms(before[1], after[1])
             la, lb = localize(before[1], after[1])
             if la.get_id() != before[1].get_id():
                 # same context around the rewritten part: equal parts => equal wholes (the converse is
